@@ -705,4 +705,6 @@ def run(ctx):
     ctx.guard(C14_replay.r20, ctx, prog)
     from rules import C14_classify
     ctx.guard(C14_classify.r21, ctx, prog)
+    from tbxlint import divzero
+    ctx.guard(divzero.rule, ctx, prog, 'C14.R22', 'A9 no division or remainder by a value that may be zero in the JSON-RPC layer: every integer /, % whose divisor is not a non-zero constant is preceded on every path by a test that the divisor is not zero (or the divisor is positive by construction): a zero that the peer can cause (a window width, a count, a length) is a SIGFPE that ends the process', ['/jsonrpc/'], 15)
     return prog
